@@ -226,12 +226,13 @@ def known_sig(t, l, clause):
             acc = [a for a in kids if a['accepted']]
             idxs = [a['idx'] for a in kids]
             want = 'ERROR' if any(a['state'] == 'ERROR' for a in acc) else 'SUCCESS'
-            if clause == 'OnePerIndex' and len(idxs) != len(set(idxs)):
+            pres = (ck == 'Prescribed')      # (the outcome clause: any of the with-items symptoms explains a wrong outcome)
+            if (clause == 'OnePerIndex' or pres) and len(idxs) != len(set(idxs)):
                 bad.add(x['name'])
-            if clause == 'CompleteAfterAll' and x['state'] in fin and x['wiCount'] >= 0 and \
+            if (clause == 'CompleteAfterAll' or pres) and x['state'] in fin and x['wiCount'] >= 0 and \
                     (any(a['state'] in live for a in acc) or len(set(a['idx'] for a in acc)) != d_['items']):
                 bad.add(x['name'])
-            if clause == 'WithItemsFinalState' and x['state'] in fin and x['wiCount'] >= 0 and x['state'] != want:
+            if (clause == 'WithItemsFinalState' or pres) and x['state'] in fin and x['wiCount'] >= 0 and x['state'] != want:
                 bad.add(x['name'])
             if clause == 'WithinLimit' and d_['conc'] > 0 and sum(1 for a in kids if a['state'] in live) > d_['conc']:
                 bad.add(x['name'])
